@@ -20,14 +20,27 @@ import (
 var c15Inputs = []struct {
 	id, src  string
 	accepted bool
+	extra    map[string]string // further files, relative to the scratch root
 }{
-	{"accepted", cliInputs[0].src, true},
-	{"accepted-two-interfaces", cliInputs[2].src, true},
-	{"rejected-in-parse", "//go:build convergen\n\npackage p\n\ntype S struct{ A int }\n\ntype D struct{ A int }\n\ntype Convergen interface {\n\t// :style sideways\n\tConv(*S) *D\n}\n", false},
-	{"rejected-in-build", "//go:build convergen\n\npackage p\n\ntype S struct{ A int }\n\ntype D struct{ A int }\n\ntype Convergen interface {\n\t// :style arg\n\t// :reverse\n\tConv(*S, int) *D\n}\n", false},
-	{"rejected-at-format", "//go:build convergen\n\npackage p\n\ntype S struct{ A int }\n\ntype D struct{ A int }\n\ntype Convergen interface {\n\t// :recv type\n\tConv(*S) *D\n}\n", false},
-	{"no-interface", "//go:build convergen\n\npackage p\n\ntype S struct{ A int }\n", false},
-	{"syntax-error", "//go:build convergen\n\npackage p\n\ntype Convergen interface {\n\tConv(*S *D\n}\n", false},
+	{id: "accepted", src: cliInputs[0].src, accepted: true},
+	{id: "accepted-two-interfaces", src: cliInputs[2].src, accepted: true},
+	{id: "rejected-in-parse", src: "//go:build convergen\n\npackage p\n\ntype S struct{ A int }\n\ntype D struct{ A int }\n\ntype Convergen interface {\n\t// :style sideways\n\tConv(*S) *D\n}\n"},
+	{id: "rejected-in-build", src: "//go:build convergen\n\npackage p\n\ntype S struct{ A int }\n\ntype D struct{ A int }\n\ntype Convergen interface {\n\t// :style arg\n\t// :reverse\n\tConv(*S, int) *D\n}\n"},
+	{id: "rejected-at-format", src: "//go:build convergen\n\npackage p\n\ntype S struct{ A int }\n\ntype D struct{ A int }\n\ntype Convergen interface {\n\t// :recv type\n\tConv(*S) *D\n}\n"},
+	{id: "no-interface", src: "//go:build convergen\n\npackage p\n\ntype S struct{ A int }\n"},
+	{id: "syntax-error", src: "//go:build convergen\n\npackage p\n\ntype Convergen interface {\n\tConv(*S *D\n}\n"},
+	// the tree is its own module whose go.mod can resolve the imported module (replace) but does not require it:
+	// whatever the outcome, go.mod and go.sum belong to the user
+	{id: "own-module-missing-require", src: "//go:build convergen\n\npackage p\n\nimport \"example.com/lib\"\n\ntype S struct{ A int }\n\ntype Convergen interface {\n\tConv(*S) *lib.T\n}\n",
+		extra: map[string]string{
+			"go.mod":     "module example.com/own\n\ngo 1.19\n\nreplace example.com/lib => ./lib\n",
+			"lib/go.mod": "module example.com/lib\n\ngo 1.19\n",
+			"lib/lib.go": "package lib\n\ntype T struct{ A int }\n"}},
+	{id: "own-module-tidy", src: "//go:build convergen\n\npackage p\n\nimport \"example.com/lib\"\n\ntype S struct{ A int }\n\ntype Convergen interface {\n\tConv(*S) *lib.T\n}\n", accepted: true,
+		extra: map[string]string{
+			"go.mod":     "module example.com/own\n\ngo 1.19\n\nrequire example.com/lib v0.0.0\n\nreplace example.com/lib => ./lib\n",
+			"lib/go.mod": "module example.com/lib\n\ngo 1.19\n",
+			"lib/lib.go": "package lib\n\ntype T struct{ A int }\n"}},
 }
 
 type c15Case struct {
@@ -54,6 +67,9 @@ func c15Prepare(base string, c c15Case) (root, cwd string, args []string, outPat
 		"README.txt":     "unrelated\n",
 		"home/.keep":     "",
 		"tmp/.keep":      "",
+	}
+	for rel, src := range c15Inputs[c.Input].extra {
+		files[rel] = src
 	}
 	cwd = filepath.Join(root, "p")
 	outAsGiven := "setup.gen.go"
@@ -223,7 +239,7 @@ func init() {
 					for lg := 0; lg < 2; lg++ {
 						for out := 0; out < 2; out++ {
 							for st := 0; st < 6; st++ {
-								if !th && (in == 1 || in == 6 || st >= 4 || (out == 1 && st == 3)) {
+								if !th && (in == 1 || in == 6 || in == 8 || st >= 4 || (out == 1 && st == 3)) {
 									continue
 								}
 								cases = append(cases, c15Case{in, dry, pr, lg, out, st})
@@ -243,7 +259,7 @@ func init() {
 			}
 		}
 		e.Rep.Set("strace_monitor", useStrace)
-		e.Rep.Rule("complete product input kind{accepted x2, rejected in parse / build / at the format stage, no interface, syntax error} x -dry x -print x -log x {default path, -out other dir} x output-path state{absent, present with old bytes, parent directory missing, path is a directory, path below a regular file, read-only file}; " +
+		e.Rep.Rule("complete product input kind{accepted x2, rejected in parse / build / at the format stage, no interface, syntax error, a module of its own whose go.mod lacks / has the require for an imported replaced module} x -dry x -print x -log x {default path, -out other dir} x output-path state{absent, present with old bytes, parent directory missing, path is a directory, path below a regular file, read-only file}; " +
 			"oracle O-frame: snapshot (content hash + mode of every path under the scratch root incl. HOME and TMPDIR, GOCACHE and the go telemetry dir excluded) before vs after: changed paths subset of {output iff exit 0 and not -dry} + {log iff -log}; " +
 			"with -dry or a failed run the output path keeps existence, bytes and mode; thorough adds an strace monitor of every write-class syscall issued by the convergen process itself; " +
 			"non-trivial = run that fails or carries -dry with a pre-existing output path")
